@@ -349,6 +349,15 @@ int Judge::expect_c(const CoLine& L, double x, double y, const GeodesicLine& ix,
   return sinth < 1e-7 ? L.c : 0;
 }
 
+// periods of the coincidence lines y = c x + k per of a line with itself / its reverse: only CLOSED geodesics have k != 0
+// (every great circle; on an ellipsoid the meridians and the equator)
+static std::vector<ld> closed_periods(const Ell& E, double lat, double azi, double qm) {
+  if (E.f == 0) return {2 * LPI * E.a};
+  std::vector<ld> p = {0};
+  if (azi == 0 || std::fabs(azi) == 180 || std::fabs(lat) == 90) p.push_back(4 * (ld)qm);
+  if (lat == 0 && std::fabs(azi) == 90) p.push_back(2 * LPI * E.a);
+  return p;
+}
 // ------------------------------------------------------------------ Next on coincident geodesics: conjugate points
 // reduced length m12 from the start of a line to displacement s (GeodesicLine::Position, independent of Intersect)
 static double m12_at(const GeodesicLine& l, double s) { double lat, lon, azi, m; l.Position(s, lat, lon, azi, m); return m; }
@@ -373,7 +382,10 @@ static double conjugate_dist(const GeodesicLine& l, int dir, double sc) {
 //    bracketing and bisection of m12 in both directions (a closer genuine self-crossing with c = 0 is a legitimate answer).
 static void conjugate_checks(Judge& J, const GeodesicLine& ix, double x, double y, int c1, double sc) {
   const double dlib = std::fabs(x) + std::fabs(y);
-  if (c1 != 0) {
+  // a flagged point on the principal line y = c x is reported as (s, c s) with s a conjugate distance; a flagged point on
+  // another coincidence line y = c x + k per of a CLOSED geodesic (meridian, equator, great circle) is the centre of that
+  // line and need not be conjugate
+  if (c1 != 0 && std::fabs(y - c1 * x) <= 1e-3 * sc + J.coinctol(x, y)) {
     double m = m12_at(ix, x), tol = 4 * J.restol(x, y);
     J.ctx.worstf("ix.next.conjugate_m12_over_tol", std::fabs(m) / tol, [&] { return J.where + " x=" + fx(x) + " m12=" + fmt(m); });
     if (!(std::fabs(m) <= tol)) J.failk("next-not-conjugate", "flagged coincident (c = " + fmti(c1) + ") but the reduced length from the start to x = " + fx(x) + " is m12 = " + fmt(m) + " m: not a conjugate point");
@@ -662,7 +674,7 @@ int main(int argc, char** argv) {
         if (!mc::same_bits(p.first, p2.first) || !mc::same_bits(p.second, p2.second) || c1 != c2) J.failk("overloads-differ", "Next(lat,lon,aziX,aziY) and Next(lines) differ");
         double sinth;
         CoLine CL; CL.c = ec; CL.b = 0;
-        if (ec != 0) { double qm; g.Inverse(0, 0, 90, 0, qm); if (E.f == 0) CL.pers = {2 * LPI * E.a}; else CL.pers = {0, 2 * LPI * E.a, 4 * (ld)qm}; }
+        if (ec != 0) { double qm; g.Inverse(0, 0, 90, 0, qm); CL.pers = closed_periods(E, s0.lat, ax, qm); }
         if (!J.check_point("next", ix, iy, p.first, p.second, sinth, &CL)) continue;
         const int lc = J.expect_c(CL, p.first, p.second, ix, iy);
         J.F.push_back({"relation", ax == ay ? "identical" : (ec ? "coincident" : "distinct")}); J.F.push_back({"c", fmti(c1)});
@@ -741,7 +753,7 @@ int main(int argc, char** argv) {
         ctx.sig(400 + (c1 + 2) * 5 + rev);
         if (!mc::same_bits(p.first, p2.first) || !mc::same_bits(p.second, p2.second) || c1 != c2) J.failk("overloads-differ", "Next(lat,lon,aziX,aziY) and Next(lines) differ");
         CoLine CL; CL.c = ec; CL.b = 0;
-        if (E.f == 0) CL.pers = {2 * LPI * E.a}; else CL.pers = {0, 2 * LPI * E.a, 4 * (ld)qm};
+        CL.pers = closed_periods(E, s0.lat, ax, qm);
         double sinth;
         if (!J.check_point("next", ix, iy, p.first, p.second, sinth, &CL)) continue;
         const int lc = J.expect_c(CL, p.first, p.second, ix, iy);
